@@ -10,4 +10,11 @@ BB = ['-DENABLE_BURST_BUFFER', '-I%s/src/drivers/ncbbio' % REPO]
 def jobs(tier, ws):
     return [Job('C12/ncbbio_cancel_put_req', 'C12', ['src/drivers/ncbbio/ncbbio_nonblocking.c'], 'C12_bb.c', enforce='ncbbio_cancel_put_req',
                 replace=['ncbbio_put_list_remove'], defines=BB, tu_defines=BB, canaries=['cancelled', 'too_late', 'unknown'], unwind=8, kind='bounded',
-                bound='log index of 5 entries, request table of 2 slots; ids, ranges, flags symbolic', timeout=300)]
+                bound='log index of 5 entries, request table of 2 slots; ids, ranges, flags symbolic', timeout=300)] + [
+            Job('C12/ncbbio_log_flush_core/entries%d' % n, 'C12', ['src/drivers/ncbbio/ncbbio_log_flush.c'], 'C12_flush.c', enforce='ncbbio_log_flush_core', defines=BB + ['-DNENT=%d' % n], tu_defines=BB,
+                extra_src=['stubs/mpi_model.c'], rfp=True, canaries=['whole_log_in_one_batch', 'cancelled_entry_skipped'] + (['one_entry_per_batch', 'read_in_two_pieces_around_a_gap'] if n >= 3 else []),
+                unwind=26, kind='bounded', timeout=900, mem_gb=14, solver=['--sat-solver', 'cadical'],
+                unwindset=['ncbbio_log_flush_core.%d:%d' % (l, b) for l, b in ((0, n + 1), (1, n + 1), (2, 1), (3, n + 1), (4, n + 1), (5, n + 2), (6, n + 4))],
+                bound='%d vara log entries of 1..4 data bytes, validity, flush-buffer size (0..64) and mode flags symbolic' % n,
+                assumptions=['ncbbio_log_flush_core: the shared-file layer (seek/read) and the underlying driver (iput_var, wait) are harness stubs that track which log position every staging-buffer byte came from'])
+            for n in ((2, 3) if tier == 'quick' else (1, 2, 3, 4))]
